@@ -90,11 +90,20 @@ class Ctx:
 
 
 def load_findings():
+    """known_findings.json plus per-property fragments known_findings.d/<ID>.json (same format), all
+    committed and read-only at run time."""
+    out = {'findings': [], 'fixed': []}
     p = os.path.join(HOME, 'known_findings.json')
-    if not os.path.exists(p):
-        return {'findings': [], 'fixed': []}
-    with open(p) as f:
-        return json.load(f)
+    paths = [p] if os.path.exists(p) else []
+    d = os.path.join(HOME, 'known_findings.d')
+    if os.path.isdir(d):
+        paths += sorted(os.path.join(d, f) for f in os.listdir(d) if f.endswith('.json'))
+    for q in paths:
+        with open(q) as f:
+            j = json.load(f)
+        out['findings'] += j.get('findings', [])
+        out['fixed'] += j.get('fixed', [])
+    return out
 
 
 def finding_for(findings, pid, key):
